@@ -101,6 +101,12 @@ def rule_insert_pinned(ctx, M, gname, rule):
     b = g.get("insert_pinned")
     if b is None:
         return
+    # insert_pinned is crate-private: a defect in it is observable only through its callers
+    callers = [x for x in M.F.bodies for blk in x.reachable if x.term(blk)["k"] == "call" and
+               (x.term(blk)["func"].get("resolved_c") or x.term(blk)["func"].get("cpath")) == b.j["cdef"]]
+    if not callers:
+        ctx.note("%s::insert_pinned has no caller in this configuration: not part of any observable behaviour, rule skipped" % gname)
+        return
     bi = M.info(b)
     slab = sf(slab_field(gname))
     ins = [s for s in bi.sites if s.key == ("Slab", "insert") and s.arg(0) == slab]
